@@ -84,11 +84,51 @@ _INPLACE = {'ior': operator.ior, 'iand': operator.iand,
             'isub': operator.isub, 'ixor': operator.ixor}
 
 
+def bad_key(fam):
+    """A key the family cannot store (writes must raise TypeError and change nothing)."""
+    kt = fam[0]
+    if kt == 'O':
+        return object()         # default comparison
+    if kt == 'f':
+        return b'x'
+    return 'x'
+
+
+def bad_value(fam):
+    """A value the family cannot store, or None if every object is a value."""
+    vt = fam[1]
+    if vt == 'O':
+        return None
+    if vt == 's':
+        return b'x'
+    return 'x'
+
+
 def apply_sut(ctx, t, op, arg=_marker):
     """Apply op to the real container; returns ('ok', value) | ('exc', name).
     `arg`: a pre-built operand for update / in-place operators (the fault enumerators build
     it before arming their interception points)."""
     name = op[0]
+    if name == 'badkey':
+        # ('badkey', how[, value]): a write with a key that cannot be stored
+        bk = bad_key(ctx.fam)
+        how = op[1]
+        if how == 'setitem':
+            return outcome(t.__setitem__, bk, op[2])
+        if how == 'add':
+            return outcome(t.add, bk)
+        if how == 'update':
+            return outcome(t.update, [(bk, op[2])] if ctx.is_map else [bk])
+        raise ValueError(op)
+    if name == 'badvalue':
+        # ('badvalue', how, key): a write of a value that cannot be stored under a usable key
+        bv = bad_value(ctx.fam)
+        how = op[1]
+        if how == 'setitem':
+            return outcome(t.__setitem__, op[2], bv)
+        if how == 'update':
+            return outcome(t.update, [(op[2], bv)])
+        raise ValueError(op)
     if name == 'setitem':
         return outcome(t.__setitem__, op[1], op[2])
     if name == 'delitem':
@@ -122,8 +162,14 @@ def apply_sut(ctx, t, op, arg=_marker):
     raise ValueError(op)
 
 
+def _raise_type_error():
+    raise TypeError
+
+
 def apply_model(m, op):
     name = op[0]
+    if name in ('badkey', 'badvalue'):
+        return outcome(_raise_type_error)       # refused, nothing changes
     if name == 'update':
         return outcome(m.update, op[2])
     if name in _INPLACE:
